@@ -107,7 +107,7 @@ def run_c18(tier):
     rep.cov['rule'] = ('cases = (code, device-dependent text) pushed on a fresh context and read back with SYST:ERR?; codes with and without description; text lengths '
                        '0..20 and around the 255 limit (quick) / 0..400 (thorough), 1..3 double quotes placed around the cut position and at random positions; '
                        'non-trivial = the text contains a quote or the escaped content is within 3 bytes of the 255 limit; builds default (malloc) and heap')
-    rep.assumptions += ['the description table in the specification (ScpiErrTable.tla) is a frozen transcription of inc/scpi/error.h (full list)']
+    rep.assumptions += ['the description table of the specification (ScpiErrTable.tla) is generated for every run from inc/scpi/error.h and the fallback text of error.c of the tree under test (full list): the texts are data of the library, their use is what is checked']
     w = lib.workdir('C18')
     r = lib.tlc('MCErrQueue', 'MCErrResp.cfg', timeout=600)
     rep.add_tlc('MCErrResp', r, 'response lemmas (escaped length <= limit, maximal cut, quotes doubled, unescape = prefix) for all texts <= 7 over {a, quote, ;} x limits 0..8')
